@@ -25,7 +25,7 @@ def plan(tier):
                 'UNDO, on stores after a random prefix; structure checks plus a twin run of the batch '
                 'without its failing items on a copy of the database; a cell is (length, failure '
                 'positions, option, id pattern, version)',
-        'min_monitor': {'twins_compared': 200, 'batches_with_failure': 200},
+        'min_monitor': {'twins_compared': 200, 'batches_with_failure': 200, 'beside_batches_checked': 50},
         'assumptions': ['server-generated key bytes are masked to their length when stores are compared',
                         'MaximumResponseSize replacement is excluded here (C12 covers it)'],
     }
@@ -33,7 +33,7 @@ def plan(tier):
 
 def cases(tier, seed):
     n = 256 if tier == 'quick' else 1600
-    return [{'hist': i} for i in range(n)]
+    return [{'hist': i} for i in range(n)] + [{'beside': i} for i in range(16 if tier == 'quick' else 160)]
 
 
 def own(objs, ident, pred=lambda o: True):
@@ -175,7 +175,95 @@ def mask_dump(dump, pre_uids):
     return out
 
 
+def run_beside(ctx, case):
+    """Batches while other connections are being served: three clients on threads of their own (yields injected at executed
+    lines of the package) send batches that create an object and address it through the ID placeholder in the items that
+    follow, with one item that fails in the middle under Continue or Stop; the others' traffic is single Query items and
+    batches of their own.  Every response is judged by the same rules as alone: one result per item in order (cut after the
+    first failure under Stop), operation and batch item ID echoed, and every identifier-less item addressed the object
+    created by THIS batch."""
+    from kv.monitors.concurrent import run_clients
+    rng = ctx.rng()
+    rig.install_clock(rig.VClock(step=0))
+    users = [(('alice', None), (1, 2)), (('bob', None), (2, 0)), (('carol', None), (1, 0)), (('dave', None), (1, 4))]
+    clients = rng.sample(users, 3)
+    with rig.scratch_dir() as d:
+        srv = rig.Server(d + '/db.sqlite')
+        try:
+            scripts, plans = [], []
+            for (u, g), v in clients:
+                frames, ps = [], []
+                for j in range(rng.randrange(5, 10)):
+                    if rng.random() < 0.3:
+                        ops, labels = [op_query((E.QueryFunction.QUERY_OPERATIONS,))], ['query']
+                        ids, option = [None], None
+                    else:
+                        k = rng.randrange(2, 9)
+                        ops = [op_register('secret', secret_data(b'pw-%s-%d' % (u.encode(), j)), common_attrs(names=['c08b-%s-%d' % (u, j)]))]
+                        labels = ['register']
+                        for _ in range(k):
+                            x = rng.random()
+                            if x < 0.55:
+                                ops.append(op_get_attributes(None, ['Name']))
+                                labels.append('get_attributes_ph')
+                            elif x < 0.8:
+                                ops.append(op_get(None))
+                                labels.append('get_ph')
+                            else:
+                                ops.append(op_get('999999'))
+                                labels.append('get_missing')
+                        ids = [b'%s-%d-%d' % (u.encode(), j, i) for i in range(len(ops))]
+                        option = rng.choice((None, OPT.STOP, OPT.CONTINUE, OPT.CONTINUE))
+                    try:
+                        frames.append(rig.encode_request(rig.build_request(v, ops, ids=ids, error_option=option), v))
+                        ps.append((ops, labels, ids, option))
+                    except Exception:
+                        pass
+                scripts.append(((u, g), frames))
+                plans.append(ps)
+            results, yields, finished = run_clients(srv, scripts, rng, name='kv-c08')
+            if not finished:
+                ctx.unsure('a client thread of a C08 beside-history did not finish within 90 s')
+                return
+            ctx.ev()
+            ctx.count('beside_histories')
+            ctx.count('beside_yields_injected', yields)
+            ctx.cell('beside', '+'.join('%d.%d' % v for _, v in clients))
+            for ci, ps in enumerate(plans):
+                for j, (ops, labels, ids, option) in enumerate(ps):
+                    res = results[ci][j] if j < len(results[ci]) else None
+                    detail = {'client': clients[ci][0][0], 'version': clients[ci][1], 'labels': labels, 'option': str(option)}
+                    if res is None or isinstance(res, BaseException) or res.error is not None:
+                        ctx.violation('beside|no-answer', 'a batch sent while other clients were being served got no decodable answer: %r'
+                                      % (res if res is None or isinstance(res, BaseException) else res.error,), detail)
+                        continue
+                    ctx.count('beside_batches_checked')
+                    detail['response'] = res.brief()
+                    n = len(ops)
+                    fails = [i for i, it in enumerate(res.items) if it['status'] != 0]
+                    stop = option in (None, OPT.STOP)
+                    expected_len = n if (not stop or not fails) else fails[0] + 1
+                    want_fail = [i for i, l in enumerate(labels) if l == 'get_missing']
+                    if len(res.items) != expected_len:
+                        ctx.violation('beside|count', 'response has %d items, expected %d (n=%d, option=%s)' % (len(res.items), expected_len, n, option), detail)
+                    if fails != [i for i in want_fail if i < len(res.items)]:
+                        ctx.violation('beside|failing-items', 'items %s failed; the items that address a missing object are %s' % (fails, want_fail), detail)
+                    for i, it in enumerate(res.items[:n]):
+                        if it['operation'] != ops[i][0].value:
+                            ctx.violation('beside|echo-op', 'item %d echoes operation %r, request had %r' % (i, it['operation'], ops[i][0].value), detail)
+                        if it['id'] != ids[i]:
+                            ctx.violation('beside|echo-id', 'item %d echoes id %r, request had %r' % (i, it['id'], ids[i]), detail)
+                        if labels[i].endswith('_ph') and it['status'] == 0:
+                            ctx.count('placeholder_checked')
+                            if res.uid(i) != res.uid(0):
+                                ctx.violation('beside|placeholder', 'placeholder item addressed %r, the batch created %r' % (res.uid(i), res.uid(0)), detail)
+        finally:
+            srv.close()
+
+
 def run_case(ctx, case):
+    if 'beside' in case:
+        return run_beside(ctx, case)
     rng = ctx.rng()
     clock = rig.install_clock(rig.VClock(step=0))
     uniq = iter(range(10 ** 9))
